@@ -111,6 +111,18 @@ def scenarios() -> Dict[str, Tuple[Scenario, Dict[Any, Any]]]:
         ("t", "call_function", E("torch.tanh"), ("%p",), {}),  # unmapped op: untouched
         ("output", "output", "output", (("%t",),), {}),
     ], {})
+    S["branch operand written first (attention block, then an MLP block)"] = ([
+        ("x", "placeholder", "x", (), {}),
+        ("w1", "get_attr", "w1", (), {}), ("w2", "get_attr", "w2", (), {}), ("w3", "get_attr", "w3", (), {}),
+        ("q", "call_function", E(F + "linear"), ("%x", "%w1"), {}),
+        ("s", "call_function", E(F + "softmax"), ("%q",), {"dim": -1}),
+        ("o", "call_function", E(F + "linear"), ("%s", "%w2"), {}),
+        ("r1", "call_function", ADD, ("%o", "%x"), {}),  # f(skip) + skip with softmax in f: tau 0.01
+        ("f", "call_function", E(F + "linear"), ("%r1", "%w3"), {}),
+        ("g", "call_function", E(F + "gelu"), ("%f",), {}),
+        ("r2", "call_function", ADD, ("%g", "%r1"), {}),  # f(skip) + skip, MLP branch; the attention lies upstream of the skip: tau 0.5
+        ("output", "output", "output", (("%r2",),), {}),
+    ], {})
     S["skip produced by a plain add (token + position embeddings)"] = ([
         ("ids", "placeholder", "ids", (), {}), ("pos", "placeholder", "pos", (), {}),
         ("we", "get_attr", "we", (), {}), ("wp", "get_attr", "wp", (), {}), ("w1", "get_attr", "w1", (), {}),
@@ -467,7 +479,7 @@ def check(report: Report, repo: Repo) -> None:
     from .c17 import check_root_entry
 
     check_root_entry(report, repo, "R3-unit_scale")  # the transform is only applied at all if TorchDynamo traces the root
-    report.floor("scenario graphs executed", n_sc, 7)
+    report.floor("scenario graphs executed", n_sc, 8)
 
     # ---- R1 call forms of torch.nn's own wrapper modules (what TorchDynamo inlines for nn.Softmax, nn.GELU, ...):
     # read from the installed torch/nn/modules/*.py with ast; each must bind to the unit-scaled counterpart
